@@ -49,6 +49,17 @@ Theorem atomic_without_commit :
 Proof. exact @atomic_manual_no_commit. Qed.
 Print Assumptions atomic_without_commit.
 
+(* ... and a with-block whose calls all succeed commits: the published zone becomes the transaction's own
+   view (its private state, which its reads saw) if it changed anything *)
+Theorem clean_exit_publishes_the_transaction_view :
+  forall P S (st : store P S) c ops z t outs z',
+  no_end ops -> t_ended t = false ->
+  run_with st c ops None z t = (outs, z') -> existsb is_err outs = false ->
+  exists t', final_txn st c ops z t = Some t' /\
+             z' = if negb (t_ro t') && s_changed st (t_st t') then s_publish st (t_st t') else z.
+Proof. exact @clean_exit_commits. Qed.
+Print Assumptions clean_exit_publishes_the_transaction_view.
+
 (* ended transactions refuse every call; read-only transactions refuse every write *)
 Theorem ended_refuses_all :
   forall P S (st : store P S) c o z t, t_ended t = true -> step st c o z t = Lib eAlreadyEnded.
